@@ -104,6 +104,8 @@ type poolCase struct {
 type poolInput struct {
 	ref   *STree
 	trees []*STree
+	// a second erroneous / mismatching tree of the same sort as the first (0 = none; free runs only)
+	errAt2 int
 }
 
 func genPoolInput(r *rand.Rand, n int, maxT int) *poolInput {
@@ -121,7 +123,7 @@ func (pi *poolInput) build(errAt int, mismatch bool) (*tree.Tree, []tree.Trees) 
 	var items []tree.Trees
 	for i, s := range pi.trees {
 		id := i
-		if i+1 == errAt {
+		if i+1 == errAt || (errAt > 0 && pi.errAt2 > 0 && i+1 == pi.errAt2) {
 			if mismatch {
 				s2 := s.clone()
 				leaf := s2
@@ -576,6 +578,10 @@ func init() {
 			if r.Intn(3) == 0 {
 				errAt = 1 + r.Intn(ntrees)
 				mismatch = r.Intn(2) == 0
+				// half of the streams with a bad tree carry a second one (two workers may each meet one)
+				if ntrees > 1 && r.Intn(2) == 0 {
+					pi.errAt2 = 1 + r.Intn(ntrees)
+				}
 			}
 			refS, itemsS := pi.build(errAt, mismatch)
 			seq := runPipeline(kind, refS, 1, feedAll(itemsS), 15*time.Second)
